@@ -207,6 +207,14 @@ var valAlphabet = [][]byte{[]byte("x"), []byte("y"), []byte(""), []byte("a|b"), 
 
 func pick(r *rand.Rand, xs [][]byte) []byte { return xs[r.Intn(len(xs))] }
 
+// pickVal draws a value: mostly from a two-letter alphabet (many duplicates), sometimes an odd one.
+func pickVal(r *rand.Rand) []byte {
+	if r.Intn(10) < 6 {
+		return valAlphabet[r.Intn(2)]
+	}
+	return valAlphabet[r.Intn(len(valAlphabet))]
+}
+
 // boundaryInt draws an index around a structure of size n.
 func boundaryInt(r *rand.Rand, n int) int {
 	switch r.Intn(12) {
